@@ -34,7 +34,7 @@ class C06(Prop):
         return [Layer("FA(2,2,<=12)", lambda: G.fa_cases(2, 2, 0, 12), rep=G.is_rep_states),
                 Layer("FA(3,2,<=3)", lambda: G.fa_cases(3, 2, 0, 3), rep=G.is_rep_states),
                 Layer("FA(3,2,4)", lambda: G.fa_cases(3, 2, 4, 4), rep=G.is_rep, policies=few),
-                Layer("FA(3,1,<=6)", lambda: G.fa_cases(3, 1, 0, 6), rep=G.is_rep),
+                Layer("FA(3,1,<=6)", lambda: G.fa_cases(3, 1, 0, 6), rep=G.is_rep, policies=few),
                 Layer("FA(4,1,<=4)", lambda: G.fa_cases(4, 1, 0, 4), rep=G.is_rep, policies=few),
                 Layer("FA(4,2,<=3) single start", lambda: G.fa_cases(4, 2, 0, 3, single_start=True), rep=G.is_rep, policies=few[:2]),
                 Layer("trim FA(4,2,5), start 0, final 3", lambda: G.trim4_cases(5, 1), policies=["natural@int/ab", "1@int/ab"]),
